@@ -534,7 +534,7 @@ def run(prop, tier, seed, replay=None, extra_cov=None):
                 continue
             violations.append((k, recdir, trn, obs))
     probe_stats = {}
-    PROBES = {"C15": ["staleprobe", "tinyprobe"], "C12": ["eventsprobe"], "C17": ["eventsprobe"]}
+    PROBES = {"C15": ["staleprobe", "tinyprobe"], "C12": ["eventsprobe"], "C17": ["eventsprobe"], "C06": ["timerprobe"]}
     if prop in PROBES and (not replay or json.load(open(replay)).get("kind") == "stale-probe"):
         # small scripted probes of the real client for what the walks cannot express: nanosecond offsets
         # around the ten-minute rule, first samples below one microsecond (C15); events left uncollected
@@ -564,7 +564,8 @@ def run(prop, tier, seed, replay=None, extra_cov=None):
         probe_stats = {"probes": PROBES[prop], "records": ptotal, "rejected": len(pbad),
                        "rule": "scripted probes judged by TraceStale.tla: staleprobe = second request 600 s + d ns after "
                                "the first (configured RTO iff d > 0); tinyprobe = first sample of 1 ns - 1 us, then the RTO "
-                               "of the third request against RFC 6298 in nanoseconds; eventsprobe = events left uncollected "
+                               "of the third request against RFC 6298 in nanoseconds; timerprobe = a timer call d ns from a slot boundary or "
+                               "the deadline fires iff d >= 0; eventsprobe = events left uncollected "
                                "before a refused request / rejected buffer / idle timer call are still there afterwards"}
         total_lines += ptotal
     if not samples:
